@@ -233,6 +233,68 @@ func runC17(c *Check) {
 			}
 		}
 	}
+	// ---- R5: start-up pacing
+	c.Doc("C17-R5", "VP+GA: the start-up delay is measured from the genesis time only when no block exists yet (store height below the initial height); once a block exists it is measured from the last block's time.")
+	{
+		g := BuildECFG(p, agg, ExpandOpts{MaxDepth: 2})
+		c.NoteGraph(g)
+		fn := fnName(agg)
+		useGenesis := g.Select(func(n *Node) bool {
+			if CallName(n) != "(time.Time).Add" {
+				return false
+			}
+			return strings.HasSuffix(ArgTerm(n, 0).String(), ".GenesisDAStartTime")
+		})
+		useLast := g.Select(func(n *Node) bool {
+			fa, ok := n.In.(*ssa.FieldAddr)
+			return ok && derefStruct(fa.X.Type()) != nil && derefStruct(fa.X.Type()).Field(fa.Field).Name() == "LastBlockTime"
+		})
+		if len(useGenesis) == 0 || len(useLast) == 0 {
+			// the genesis time may be selected into a variable first: look at loads of the field
+			useGenesis = g.Select(func(n *Node) bool {
+				fa, ok := n.In.(*ssa.FieldAddr)
+				return ok && derefStruct(fa.X.Type()) != nil && derefStruct(fa.X.Type()).Field(fa.Field).Name() == "GenesisDAStartTime" && n.Ctx.Depth <= 1
+			})
+		}
+		if len(useGenesis) == 0 || len(useLast) == 0 {
+			c.Unk("C17-R5", "start-up-delay ⟂ bases", fn, "", "anchor lost: the start-up delay does not read the genesis time and the last block time")
+		} else {
+			// classify the comparison height ? initialHeight on the paths to the last-block-time read
+			rel := func(f Fact) string {
+				t := f.Cond
+				if t.Op != "bin" {
+					return ""
+				}
+				a, b := t.Args[0].String(), t.Args[1].String()
+				isH := func(s string) bool { return strings.Contains(s, "pkg/store.Store).Height(") }
+				isI := func(s string) bool { return strings.HasSuffix(s, ".InitialHeight") }
+				op := t.Name
+				switch {
+				case isH(a) && isI(b):
+				case isI(a) && isH(b):
+					op = map[string]string{"<": ">", "<=": ">=", ">": "<", ">=": "<=", "==": "==", "!=": "!="}[op]
+				default:
+					return ""
+				}
+				if !f.Pol {
+					op = map[string]string{"<": ">=", "<=": ">", ">": "<=", ">=": "<", "==": "!=", "!=": "=="}[op]
+				}
+				return op // reads: height <op> initialHeight holds
+			}
+			lastRel := ""
+			for _, f := range g.NecessaryEdges(nodeSet(useLast)) {
+				if r := rel(f); r != "" {
+					lastRel = r
+				}
+			}
+			// genesis base: unconditional read is fine as long as the *last block* base is chosen for every height >= initial
+			if lastRel == ">=" {
+				c.OK("C17-R5", "start-up-delay ⟂ last-block-base-iff-a-block-exists", fn, p.InstrPos(useLast[0].In), "the last block's time is the base whenever store height >= initial height", true)
+			} else {
+				c.Bad("C17-R5", "start-up-delay ⟂ last-block-base-iff-a-block-exists", fn, p.InstrPos(useLast[0].In), "the last block's time is the base of the start-up delay only when store height "+lastRel+" initial height; for the remaining heights at which a block already exists the (old) genesis time is used, the delay comes out non-positive and a restart right after that block produces the next one immediately — two blocks closer than one block interval", nil)
+			}
+		}
+	}
 	c.MinInstances("C17-R2", 4)
 	c.MinInstances("C17-R3", 3)
 	c.MinInstances("C17-R4", 2)
